@@ -170,3 +170,80 @@ func c09MoreSpecs() []*edt.Spec {
 		},
 	}
 }
+
+// c09LRUSpecs: the LRU cache stores, under the key it was asked to store, an
+// entry holding exactly the expanded key it was given; eviction (exactly at
+// capacity) removes the oldest element and the store entry of THAT element.
+func c09LRUSpecs() []*edt.Spec {
+	const (
+		got   = "lruCache.getLocked(upd($cache, .Mutex=(Mutex.Lock)), $publicKey)"
+		entry = "agg(.publicKey=(&P:expanded))"
+		list  = "sel(" + got + ", .list)"
+		back  = "List.Back(" + list + ")"
+		rem   = "List.Remove(" + list + ", " + back + ")"
+	)
+	return []*edt.Spec{{
+		Pkg: "primitives/ed25519/extra/cache", Func: "(*lruCache).Put", Opaque: []string{"lruCache.getLocked"}, MinPaths: 3,
+		Vars: map[string]string{
+			"isnil(ptr($cache))": "miss", // the entry returned by getLocked is nil (rendered through the receiver alias)
+			"(List.Len(" + list + ") == sel(" + got + ", .capacity))": "atCapacity",
+		},
+		Classify: func(p *edt.Path, out string, e *edt.Env) string {
+			store := ""
+			for k := range p.Final {
+				if strings.HasSuffix(k, ".store)") || strings.HasSuffix(k, ".store") {
+					store = k
+				}
+			}
+			evicts := false
+			for _, ev := range p.Events {
+				if strings.HasPrefix(ev, "List.Remove(") {
+					evicts = true
+				}
+			}
+			switch {
+			case store == "":
+				return "hit"
+			case evicts:
+				return "evict+insert"
+			}
+			return "insert"
+		},
+		Formula: map[string]func(e *edt.Env) edt.Tri{
+			"hit":          func(e *edt.Env) edt.Tri { return edt.Not(e.V("miss")) },
+			"insert":       func(e *edt.Env) edt.Tri { return edt.And(e.V("miss"), edt.Not(e.V("atCapacity"))) },
+			"evict+insert": func(e *edt.Env) edt.Tri { return edt.And(e.V("miss"), e.V("atCapacity")) },
+		},
+		Extra: func(p *edt.Path, out, class string, e *edt.Env, ab func(string) string) string {
+			// the lock is held from the first to the last operation
+			if len(p.Events) < 2 || p.Events[0] != "Mutex.Lock" || !strings.HasPrefix(p.Events[len(p.Events)-1], "Mutex.Unlock(") {
+				return "Put must run under the cache lock from start to end"
+			}
+			if class == "hit" {
+				return ""
+			}
+			for k, f := range p.Final {
+				if strings.HasSuffix(k, ".store)") || strings.HasSuffix(k, ".store") {
+					_, args := callParts(f.String())
+					if len(args) != 3 || args[1] != "$publicKey" || args[2] != entry {
+						return "the store must map the given key to a NEW entry holding exactly the expanded key passed in: got " + clip(f.String(), 300)
+					}
+				}
+			}
+			wantList := "List.PushFront(" + list + ", " + entry + ")"
+			if class == "evict+insert" {
+				wantList = "List.PushFront(" + rem + ", " + entry + ")"
+				found := false
+				for _, ev := range p.Events {
+					if ev == "ExpandedPublicKey.CompressedY("+rem+".publicKey)" {
+						found = true
+					}
+				}
+				if !found {
+					return "eviction must delete the store entry keyed by the compressed form of the REMOVED (oldest) element's key"
+				}
+			}
+			return finalIs(p, ab, "$cache.list", wantList)
+		},
+	}}
+}
